@@ -29,6 +29,13 @@ import (
 
 const c20Chain = "c20-chain"
 
+func chainOf(q sreq) string {
+	if q.C == 1 {
+		return "c20-aux"
+	}
+	return c20Chain
+}
+
 var (
 	c20T = []time.Time{time.Unix(1700000000, 0).UTC(), time.Unix(1700000777, 500).UTC()}
 	c20B = [][]byte{bytes.Repeat([]byte{0xA1}, 32), bytes.Repeat([]byte{0xB2}, 32)}
@@ -41,6 +48,7 @@ type sreq struct {
 	R      int  `json:"r"`      // 0,1
 	B      int  `json:"b"`      // 0 = block A, 1 = block B, 2 = nil (votes only)
 	T      int  `json:"t"`      // timestamp index
+	C      int  `json:"c,omitempty"` // 0 = the validator's chain, 1 = a request carrying ANOTHER chain id
 	Reload bool `json:"reload"` // reload the signer from its files before the request
 	Fail   bool `json:"fail"`   // the state directory is missing during the request (an atomic write fails); the process restarts iff the signer panicked
 }
@@ -49,6 +57,9 @@ func (q sreq) String() string {
 	k := []string{"proposal", "prevote", "precommit"}[q.Kind]
 	b := []string{"A", "B", "nil"}[q.B]
 	s := fmt.Sprintf("%s(h%d r%d %s t%d)", k, q.H, q.R, b, q.T)
+	if q.C == 1 {
+		s = "otherchain:" + s
+	}
 	if q.Reload {
 		s = "reload;" + s
 	}
@@ -86,6 +97,15 @@ func c20Requests() []sreq {
 						rs = append(rs, sreq{Kind: kind, H: h, R: r, B: b, T: t})
 					}
 				}
+			}
+		}
+	}
+	// the same key asked to sign for ANOTHER chain id (proposal and prevote for block A): the single last-sign record is
+	// chain-agnostic, such a request must obey the same height/round/step rules
+	for h := 1; h <= 2; h++ {
+		for r := 0; r <= 1; r++ {
+			for kind := 0; kind <= 1; kind++ {
+				rs = append(rs, sreq{Kind: kind, H: h, R: r, B: 0, T: 0, C: 1})
 			}
 		}
 	}
@@ -214,9 +234,9 @@ func (r *srun) do(q sreq) (viol *engine.Violation) {
 	func() {
 		defer func() { panicked = recover() }()
 		if prop != nil {
-			err = r.pv.SignProposal(c20Chain, prop)
+			err = r.pv.SignProposal(chainOf(q), prop)
 		} else {
-			err = r.pv.SignVote(c20Chain, vote)
+			err = r.pv.SignVote(chainOf(q), vote)
 		}
 	}()
 	if q.Fail {
@@ -279,7 +299,7 @@ func (r *srun) do(q sreq) (viol *engine.Violation) {
 func (r *srun) signBytes(q sreq, ts time.Time) []byte {
 	if q.Kind == 0 {
 		p := &tmproto.Proposal{Type: tmproto.ProposalType, Height: int64(q.H), Round: int32(q.R), PolRound: -1, BlockID: blockID(q.B), Timestamp: ts}
-		return tmtypes.ProposalSignBytes(c20Chain, p)
+		return tmtypes.ProposalSignBytes(chainOf(q), p)
 	}
 	vt := tmproto.PrevoteType
 	if q.Kind == 2 {
@@ -287,7 +307,7 @@ func (r *srun) signBytes(q sreq, ts time.Time) []byte {
 	}
 	v := &tmproto.Vote{Type: vt, Height: int64(q.H), Round: int32(q.R), BlockID: blockID(q.B), Timestamp: ts,
 		ValidatorAddress: c20KeyBytes.PubKey().Address(), ValidatorIndex: 0}
-	return tmtypes.VoteSignBytes(c20Chain, v)
+	return tmtypes.VoteSignBytes(chainOf(q), v)
 }
 
 // releasedCheck applies the double-sign / regression / re-serve / validity / durability rules to a released signature.
@@ -425,7 +445,7 @@ func (c *c20) Meta() engine.Meta {
 		CaseTimeout: 2 * time.Hour,
 		LevelName:   "1 = unpruned DFS of request sequences (length and decoration set per tier), 2 = BFS with state de-duplication over the fully decorated alphabet",
 		Technique:   "explicit-state exploration of signing-request sequences with reload / failing-write faults on the real SFilePV, invariant over the set of released signatures",
-		Rule: "requests = {proposal,prevote,precommit} x height{1,2} x round{0,1} x block{A,B,nil(votes)} x timestamp{t1,t2} (64), each optionally preceded by a reload of the signer from its key+state files and/or executed while the state directory is missing (an atomic write fails: if the signer panics the panic is recovered, the request struct inspected and the process 'restarts'; if it does not, the process lives on with whatever it holds in memory). " +
+		Rule: "requests = {proposal,prevote,precommit} x height{1,2} x round{0,1} x block{A,B,nil(votes)} x timestamp{t1,t2} (64) plus 8 requests that carry ANOTHER chain id (proposal / prevote for block A at every height and round), each optionally preceded by a reload of the signer from its key+state files and/or executed while the state directory is missing (an atomic write fails: if the signer panics the panic is recovered, the request struct inspected and the process 'restarts'; if it does not, the process lives on with whatever it holds in memory). " +
 			"Oracle over ALL signatures ever released: one content per height/round/step (timestamp aside), no signature below the highest h/r/s signed, same message -> original signature and timestamp, every signature verifies for the message handed back, after every fresh signature the state file names exactly that message, nothing is released when the write failed. " +
 			"non-trivial = shard/BFS in which at least one request was refused or re-served.",
 		Assumptions: []string{
